@@ -184,6 +184,23 @@ func Gen(r *rand.Rand, tok string) string {
 			rs(r, lower, 1+r.Intn(4)) + " from " + ipv4(r) + " port " + strconv.Itoa(1+r.Intn(65535)) + " ssh2 [preauth]",
 			"[preauth] " + rs(r, lower, 1+r.Intn(4)),
 		}[r.Intn(4)]
+	case "<evil.other>", "<kid.phrase>":
+		// phrases of sshd / PAM messages the daemon does not handle, as (part of) a client-chosen name or a key id
+		ph := []string{"Connection closed by authenticating user", "Connection closed by", "Disconnected from user",
+			"Disconnected from", "Received disconnect from", "pam_unix(sshd:session): session opened for user",
+			"pam_unix(sshd:session): session closed for user", "pam_unix(sshd:auth): authentication failure;",
+			"Connection reset by", "Did not receive identification string from", "Server listening on", "fatal:",
+			"Starting session: shell on pts/0 for", "subsystem request for sftp by user", "Postponed publickey for",
+			"Failed none for", "Failed publickey for", "Connection from", "debug1:", "PAM:", "Unable to negotiate with",
+			"Bad protocol version identification", "kex_exchange_identification:", "Timeout before authentication for",
+			"Accepted keyboard-interactive/pam for", "Disconnecting authenticating user", "Close session: user",
+			"error: kex_exchange_identification: Connection closed by remote host"}
+		a, b := rs(r, lower, 1+r.Intn(5)), rs(r, lower, 1+r.Intn(5))
+		p1 := ph[r.Intn(len(ph))]
+		if tok == "<kid.phrase>" {
+			return []string{a + " " + p1 + " " + b, p1 + " " + b, a + " " + p1}[r.Intn(3)]
+		}
+		return []string{a + " " + p1 + " " + b, p1 + " " + b, a + " " + p1, a + " " + p1 + " " + ipv4(r) + " port " + strconv.Itoa(1+r.Intn(65535))}[r.Intn(4)]
 	case "<evil.dict>":
 		// random walk over the literal fragments of the grammar
 		frag := []string{" from ", " port ", " ssh2", " [preauth]", ": ", "invalid user ", "Invalid user ", "Failed password for ",
@@ -671,14 +688,32 @@ type Rec struct {
 	Framed  *Obs            `json:"framed,omitempty"`
 	Fifo    *FifoObs        `json:"fifo,omitempty"`
 	Stream  *Obs            `json:"stream,omitempty"`
+	Stream2 *Obs            `json:"stream2,omitempty"` // the same line once more, right behind itself (sshd logs repeats)
 	Pad     int             `json:"pad"`
 	Vec     int             `json:"vec"`
 	Conc    int             `json:"conc"`
+	Twin    bool            `json:"twin"` // concretised from the previous record's values (half of them kept)
+	Subst   Subst           `json:"-"`
 }
 
 // Run concretises a vector and delivers it.
-func Run(v *Vector, r *rand.Rand, vecIdx, conc int, framed bool, fifo **FifoSession, fifoDir string, stream *Stream) Rec {
+// prev (optional): the substitution of the previous concretisation of the same vector; a random half of its values is
+// kept ("the same key with a new serial", "the same user from another address"): values that recur from line to line
+// while the rest changes are what a cache keyed on part of a message gets wrong.
+func Run(v *Vector, r *rand.Rand, vecIdx, conc int, framed bool, fifo **FifoSession, fifoDir string, stream *Stream, prev Subst) Rec {
 	s := NewSubst(r, v)
+	if prev != nil {
+		keys := make([]string, 0, len(s))
+		for t := range s {
+			keys = append(keys, t)
+		}
+		sort.Strings(keys)
+		for _, t := range keys {
+			if pv, ok := prev[t]; ok && r.Intn(2) == 0 {
+				s[t] = pv
+			}
+		}
+	}
 	pidtok := v.PidTok
 	if pidtok == "" {
 		pidtok = "<pid.pos>"
@@ -687,7 +722,7 @@ func Run(v *Vector, r *rand.Rand, vecIdx, conc int, framed bool, fifo **FifoSess
 	s["<PID>"] = pid
 	line := s.Plain(v.Line)
 	rec := Rec{K: "vec", Form: v.Form, Fam: v.Fam, Emits: v.Emits, Pid: pid, Vec: vecIdx, Conc: conc,
-		LineLen: len(line), Pad: 1 + r.Intn(3)}
+		LineLen: len(line), Pad: 1 + r.Intn(3), Twin: prev != nil, Subst: s}
 	rec.PidInt, _ = strconv.Atoi(pid)
 	if v.Event != nil {
 		rec.Event = s.JSONText(v.Event)
@@ -703,6 +738,10 @@ func Run(v *Vector, r *rand.Rand, vecIdx, conc int, framed bool, fifo **FifoSess
 	if stream != nil {
 		so := stream.Deliver(pid, line)
 		rec.Stream = &so
+		if r.Intn(3) == 0 {
+			so2 := stream.Deliver(pid, line)
+			rec.Stream2 = &so2
+		}
 	}
 	// Framing is defined for a message that does not start with padding, a pid
 	// token without blanks, and a line without the record delimiter.
